@@ -456,7 +456,20 @@ func (w *c16Worker) storm(res *runner.CaseResult, idx int) {
 						housekeepings.Add(1)
 						_, _, _, _, _ = documents.CompactDocuments(ctx, w.env.BE, 20, 5, 0, database.ZeroID)
 					case x < 4:
-						_, _ = packs.BuildInternalDocForServerSeq(ctx, w.env.BE, di, di.ServerSeq)
+						// an admin-style read, the way AdminService.GetDocument does it on this
+						// node: document info and rebuild under the document's read lock. (Read
+						// without it, the info can be one compaction old by the time the
+						// rebuild runs; the rebuilt document then claims a server sequence of
+						// the previous generation, is cached under it, and later rebuilds on
+						// top of it skip changes. Seen once as divergence-after-storm; on a
+						// single node every production caller holds the lock.)
+						func() {
+							locker := w.env.BE.Lockers.LockerWithRLock(packs.DocKey(proj.ID, dk))
+							defer locker.RUnlock()
+							if di2, err := w.env.BE.DB.FindDocInfoByKey(ctx, proj.ID, dk); err == nil && di2 != nil {
+								_, _ = packs.BuildInternalDocForServerSeq(ctx, w.env.BE, di2, di2.ServerSeq)
+							}
+						}()
 					default:
 						compactions.Add(1)
 						ok, err := documents.CompactDocument(ctx, w.env.BE, proj, di, lr.Intn(12) == 0)
